@@ -143,7 +143,7 @@ class SubscriptionBase:
     def renew(self, expires: float | None):
         """Renew a subscription."""
         self._started = time.monotonic()
-        if expires:
+        if expires is not None:
             self._expire_seconds = min(expires, self._max_subscription_duration)
         else:
             self._expire_seconds = self._max_subscription_duration
